@@ -527,7 +527,10 @@ def missingCheck (o : Orc) : Orc × Option String :=
       let video := isVideoTrk o trk
       let frames := o.frames.filter (·.trk = trk)
       -- regular timestamps: consecutive frames advance by less than 2^24 ticks
-      let regular := (frames.zip (frames.drop 1)).all fun (a, b) => let d := sub32 b.ts a.ts; 0 < d && d < 16777216
+      let regularOf (fs : List Frame) : Bool := (fs.zip (fs.drop 1)).all fun (a, b) => let d := sub32 b.ts a.ts; 0 < d && d < 16777216
+      -- (of EVERY track of the recording: a sample whose time is invalid makes the writer give up the whole
+      -- file, and the other tracks then wait for the next keyframe)
+      let regular := regularOf frames && (List.range o.codecs.length).all fun t => regularOf (o.frames.filter (·.trk = t))
       if !regular then (o, none) else
       let reachOf (p : SentPkt) : Option Reach := o.reached.find? (fun r => r.trk = trk && r.seq = p.seq)
       let lim := lateLimit video
@@ -617,11 +620,7 @@ def missingCheck (o : Orc) : Orc × Option String :=
                   -- the keyframe that changed the dimensions is itself not in the recording
                   if bpos ≤ fpos + f.n && fpos ≤ npos + 1 && !o.blocks.any (fun x => x.trk = vt && x.fid = b.fid) then some (a, b) else none
                 else none
-          if !recPad.isEmpty then
-            (defer o s!"C20: [P22] frame {f.fid} of track {trk} ({cn}) is missing from the recording although every packet reached the recorder or was recovered from the cache: its packet(s) {recPad.map (·.seq)} carry RTP padding and were recovered from the cache; fetch unmarshals the whole 1504-byte buffer, whose last byte is 0, so the packet is rejected (invalid padding length)", none)
-          else if kfRecovered && cn = "video/h264" then
-            (defer o s!"C20: [P22] frame {f.fid} of track {trk} ({cn}) is missing from the recording although every packet was delivered or recovered: the first packet (STAP-A with the SPS) of its keyframe {(kfStart.map (·.fid)).getD 0} was recovered from the cache and, unmarshalled from the whole 1504-byte buffer, is no longer recognised as a keyframe start", none)
-          else if !dupIn.isEmpty then
+          if !dupIn.isEmpty then
             (defer o s!"C20: [SB-dup-newest] frame {f.fid} of track {trk} ({cn}) is missing from the recording although every packet reached the recorder: a second copy of packet(s) {dupIn}, the newest of the track at that moment, arrived while the frame was still in the third-party sample builder, which discards its whole buffer when the newest packet is repeated", none)
           else if overtaken.isSome then
             let (k, g) := overtaken.getD (default, default)
@@ -633,6 +632,10 @@ def missingCheck (o : Orc) : Orc × Option String :=
             (defer o s!"C20: [dim-change] frame {f.fid} of track {trk} ({cn}) is missing from the recording although every packet reached the recorder: keyframe {b.fid} changed the video dimensions from {da} to {db}; initWriter closes the file, which clears every track's origin, so the keyframe itself and every sample of every track up to the next keyframe are discarded (\"Invalid origin\")", none)
           else if o.partialSeen.any (fun (t, pf) => t = trk && pf ≤ f.fid && f.fid ≤ pf + 64) then
             (defer o s!"C20: [SB-partial] frame {f.fid} of track {trk} ({cn}) is missing from the recording although every packet reached the recorder: the third-party sample builder had returned an incomplete frame before and the packets it left behind block or displace the following frame", none)
+          else if !recPad.isEmpty then
+            (defer o s!"C20: [P22] frame {f.fid} of track {trk} ({cn}) is missing from the recording although every packet reached the recorder or was recovered from the cache: its packet(s) {recPad.map (·.seq)} carry RTP padding and were recovered from the cache; fetch unmarshals the whole 1504-byte buffer, whose last byte is 0, so the packet is rejected (invalid padding length)", none)
+          else if kfRecovered && cn = "video/h264" then
+            (defer o s!"C20: [P22] frame {f.fid} of track {trk} ({cn}) is missing from the recording although every packet was delivered or recovered: the first packet (STAP-A with the SPS) of its keyframe {(kfStart.map (·.fid)).getD 0} was recovered from the cache and, unmarshalled from the whole 1504-byte buffer, is no longer recognised as a keyframe start", none)
           else if srDrop then
             (defer o s!"C20: [SR-shift] frame {f.fid} of track {trk} ({cn}) is missing from the recording although every packet reached the recorder: a sender report moved the origin of the track past the frame's timestamp and the sample was dropped as late", none)
           else
